@@ -114,6 +114,12 @@ func genConc(job *Job, prop string, seed, idx uint64) *RunOutcome {
 	}
 	qOf := func() *model.Query {
 		q := &model.Query{Coll: concColl}
+		if r.Chance(0.15) {
+			// a pattern never used before in this process (anything cached per pattern is filled concurrently)
+			uniq++
+			q.Crit = &model.Crit{Op: "like", F: "v", Pat: fmt.Sprintf("^[spiu]0*%d|x%d$", r.Intn(30), uniq)}
+			return q
+		}
 		switch r.Intn(4) {
 		case 0:
 		case 1:
